@@ -142,3 +142,24 @@ Proof. repeat split; vm_compute; reflexivity. Qed.
 Definition ex_loop : case := CFilter [] (Some [mk_el Not (Some [OElem 1]); mk_el Not (Some [OElem 0])]).
 Example ex_loop_ok : run ex_loop = [0; 2] /\ reference [] (snd (filter_of ex_loop)) = None.
 Proof. split; vm_compute; reflexivity. Qed.
+
+(* ---- observation (not part of the property text): evaluation work -------------------------------
+   More than one path to an element is legal (Part 4), and every path re-evaluates the element: the
+   evaluator does the work of the unfolded tree (evaluate_agrees follows it operand by operand).  For the
+   chain And(1,1), And(2,2), ..., Not(false) the tree doubles with every element. *)
+Fixpoint dag_from (i : Z) (n : nat) : list element :=
+  match n with
+  | O => []
+  | S O => [mk_el Not (Some [OLit (VBool false)])]
+  | S n' => mk_el And (Some [OElem (i + 1); OElem (i + 1)]) :: dag_from (i + 1) n'
+  end.
+Fixpoint tree_size (e : expr) : nat :=
+  match e with
+  | XOp _ args => S (fold_right (fun x acc => tree_size x + acc)%nat O args)
+  | _ => 1%nat
+  end.
+Example dag_tree_doubles :
+  option_map (fun e => Z.of_nat (tree_size e)) (unfold_clause (dag_from 0 8)) = Some 383 /\
+  option_map (fun e => Z.of_nat (tree_size e)) (unfold_clause (dag_from 0 12)) = Some 6143 /\
+  run (CFilter [] (Some (dag_from 0 12))) = [1; 1].
+Proof. repeat split; vm_compute; reflexivity. Qed.
